@@ -1074,6 +1074,11 @@ CMR_ERROR CMRtwosumCompose(CMR* cmr, CMR_CHRMAT* first, CMR_CHRMAT* second, size
   else
     return CMR_ERROR_INPUT;
 
+  if (bottomLeft && (firstRowMarker >= first->numRows || secondColumnMarker >= second->numColumns))
+    return CMR_ERROR_INPUT;
+  if (!bottomLeft && (firstColumnMarker >= first->numColumns || secondRowMarker >= second->numRows))
+    return CMR_ERROR_INPUT;
+
   char* markerColumn = NULL; /* Nonzero entries of the column vector among a,b. */
   size_t markerColumnNumNonzeros = 0; /* Number of nonzeros in markerColumn. */
   size_t markerRowNumNonzeros = 0; /* Number of nonzeros of a,b that is not markerColumn. */
